@@ -69,6 +69,52 @@ def _frames_of(rr, tm):
     return None
 
 
+def _dyn_digest(sol):
+    if sol is None or sol.dynamics is None:
+        return None
+    d = sol.dynamics
+    out = {"n": int(len(np.asarray(d.dt)))}
+    for key in ("dt", "time", "mu", "theta"):
+        v = getattr(d, key, None)
+        if v is not None:
+            out[key] = simmon.h(np.asarray(v))
+    return out
+
+
+def _observe(sol, C):
+    """Everything a user does to LOOK at a solution: plots, derived quantities, fields. None of it may change the solution."""
+    import matplotlib
+
+    matplotlib.use("Agg")
+    import matplotlib.pyplot as plt
+
+    pts = np.asarray(sol.device.points)
+    P = np.array([[pts[:, 0].mean(), pts[:, 1].mean(), 1.0], [pts[:, 0].min(), pts[:, 1].max(), 0.5]])
+    calls = [
+        ("plot_order_parameter", lambda: sol.plot_order_parameter()),
+        ("plot_currents", lambda: sol.plot_currents()),
+        ("plot_scalar_potential", lambda: sol.plot_scalar_potential()),
+        ("plot_vorticity", lambda: sol.plot_vorticity()),
+        ("plot_field_at_positions", lambda: sol.plot_field_at_positions(P)),
+        ("current_density", lambda: sol.current_density),
+        ("vorticity", lambda: sol.vorticity),
+        ("field_at_position", lambda: sol.field_at_position(P)),
+        ("vector_potential_at_position", lambda: sol.vector_potential_at_position(P)),
+        ("interp_current_density", lambda: sol.interp_current_density(P[:, :2])),
+        ("interp_order_parameter", lambda: sol.interp_order_parameter(P[:, :2])),
+        ("grid_current_density", lambda: sol.grid_current_density(grid_shape=(20, 20))),
+    ]
+    for name, fn in calls:
+        try:
+            fn()
+            C["observer_calls"] = C.get("observer_calls", 0) + 1
+        except Exception:
+            # several plotting paths fail in this environment (numpy 2 / shapely) exactly as in the repository's own tests
+            C["observer_calls_raised"] = C.get("observer_calls_raised", 0) + 1
+        finally:
+            plt.close("all")
+
+
 def case_observe(spec):
     dev, why = zoo.try_build_device(spec["device"])
     if dev is None:
@@ -90,6 +136,7 @@ def case_observe(spec):
     ref_dts = [u["dt"] for st in tm.stages for u in st["updates"]]
     N = len(ref_updates)
     ref_frames = {int(f["attrs"]["step"]): f for f in _frames_of(rr, tm)}
+    ref_dyn = _dyn_digest(rr.solution)
     rr.cleanup()
     configs = []
     for i, k in enumerate([1, 2, 3, 7, max(N, 1), N + 1]):
@@ -135,6 +182,15 @@ def case_observe(spec):
         elif ups != ref_updates:
             j = next(i for i, (a, b) in enumerate(zip(ups, ref_updates)) if a != b)
             V.append({"kind": "state_sequence_differs", "mechanism": "observation_changes_trajectory", "detail": {"config": cfg, "first_difference_at_step": j, "datasets": [k for k in ups[j] if ups[j][k] != ref_updates[j].get(k)]}})
+        # the per-step records of the loaded Solution are per STEP: they cannot depend on how often frames were written
+        dd = _dyn_digest(rr2.solution)
+        if ref_dyn is not None and dd is not None:
+            C["dynamics_comparisons"] = C.get("dynamics_comparisons", 0) + 1
+            for key in ("dt", "time") + (("mu", "theta") if cfg["probes"] else ()):
+                if key in ref_dyn and key in dd and ref_dyn[key] != dd[key]:
+                    V.append({"kind": "per_step_records_differ", "mechanism": "recording_configuration_changes_records",
+                              "detail": {"config": cfg, "record": key, "lengths": [dd["n"], ref_dyn["n"]]}})
+                    break
         frames = _frames_of(rr2, tm2)
         rr2.cleanup()
         if frames is None:
@@ -187,8 +243,14 @@ def case_resume(spec):
         if rr1.exception is not None or rr1.solution is None:
             return {"status": "harness_error", "error": "first part failed: " + repr(rr1.exception)[:300]}
         # continue from the saved final state, loaded from disk as a user would
-        seed = tdgl.Solution.from_hdf5(rr1.output_path)
+        # ... or the Solution object that solve() returned; either way the user has LOOKED at it first (plots, fields, ...)
+        seed = tdgl.Solution.from_hdf5(rr1.output_path) if C["resume_splits"] % 2 == 0 else rr1.solution
         seed_before = {f: simmon.h(np.asarray(getattr(seed.tdgl_data, f))) for f in ("psi", "mu", "supercurrent", "normal_current", "induced_vector_potential")}
+        _observe(seed, C)
+        seen = {f: simmon.h(np.asarray(getattr(seed.tdgl_data, f))) for f in seed_before}
+        if seen != seed_before:
+            V.append({"kind": "looking_at_a_solution_changes_it", "mechanism": "observation_mutates_solution", "detail": {"N": N, "N1": N1, "fields": [f for f in seed_before if seed_before[f] != seen[f]]}})
+            seed_before = seen
         rr2, tm2 = run(N - N1, seed_solution=seed)
         C["resume_splits"] += 1
         seed_after = {f: simmon.h(np.asarray(getattr(seed.tdgl_data, f))) for f in seed_before}
